@@ -399,7 +399,7 @@ def run_impl(cexe, cases):
     return rc, out, err, crashes
 
 
-REPAIRS = ["zerofix"]      # notes/fix_C17_1.diff
+REPAIRS = ["zerofix"]      # /repo commit 8e7b6f1 (was notes/fix_C17_1.diff)
 
 
 def is_sweep(c):
@@ -581,7 +581,7 @@ def check(ctx):
     cexe, mexe, proof_ok = build(ctx)
     cases = gen_cases(ctx)
     rc1, cout, cerr, crashes = run_impl(cexe, cases)
-    mo, me, table = run_model(ctx, mexe, cases, zerofix=False)
+    mo, me, table = run_model(ctx, mexe, cases, zerofix=True)     # the tree refuses zero dimensions (8e7b6f1)
     cc, mc = vlib.split_cases(cout), vlib.split_cases(mo)
     by_head = {h: ls for (h, ls) in cc}
     mby_head = {h: ls for (h, ls) in mc}
@@ -606,14 +606,13 @@ def check(ctx):
                 out.append((idx, d))
         return out
     mm0 = mismatches_of(mby_head)
-    mismatches, chosen = mm0, []
-    if mm0:     # which of the proposed repairs does the library contain?  (greedy)
-        for rep in REPAIRS:
-            trial = chosen + [rep]
-            mo1, _, t1 = run_model(ctx, mexe, cases, zerofix="zerofix" in trial)
-            mm1 = mismatches_of({h: ls for (h, ls) in vlib.split_cases(mo1)})
-            if len(mm1) < len(mismatches):
-                mismatches, chosen, mo, table = mm1, trial, mo1, t1
+    mismatches, chosen = mm0, list(REPAIRS)
+    if mm0:     # would the model of the code before the repair (zero width accepted) agree?  -> regression of 8e7b6f1
+        mo1, _, t1 = run_model(ctx, mexe, cases, zerofix=False)
+        mm1 = mismatches_of({h: ls for (h, ls) in vlib.split_cases(mo1)})
+        if len(mm1) < len(mismatches):
+            mismatches, chosen = mm1, []
+        run_model(ctx, mexe, cases, zerofix=True)
     variant = ",".join(chosen) or "none"
     pybad = py_float_check(table)
     nops = sum(len(c) - 1 for c in cases)
@@ -637,7 +636,8 @@ def check(ctx):
         samples=[cases[i][:12] for i in (0, len(cases) // 2, len(cases) - 1)],
         input_distribution=hist, cases=len(cases), float_queries=len(table), repairs_found_in_library=variant,
         python_double_disagreements=len(pybad),
-        correspondence_mismatches=len(mismatches), mismatches_against_as_is_model=len(mm0),
+        correspondence_mismatches=len(mm0), mismatches_of_closest_variant=len(mismatches),
+        repairs_expected_in_library=",".join(REPAIRS),
         oracle_failures=len(oracle_fail), exhaustive_sweep="ScaleX/rfbScaledCorrection, both directions, all W <= %d, all factors, all x" %
                          (SWEEP_QUICK if ctx.quick() else SWEEP_THOROUGH))
     ctx.assumptions += ["IEEE-754 binary64 round-to-nearest-even for the C doubles (x86-64 SSE2, no FMA contraction)",
@@ -670,11 +670,12 @@ def check(ctx):
     if pybad and not oracle_fail:
         ctx.violation("primitive-float model (ScaleF.v) and Python doubles disagree on %d expressions, e.g. %s" % (len(pybad), pybad[0]),
                       {"kind": "correspondence"}, "first disagreements: %s" % (pybad[:5],), no_input=True)
-    if mismatches and not [1 for (_, (m, f)) in oracle_fail if vlib.match_finding("C17", f) is None]:
-        idx, d = mismatches[0]
+    if mm0 and not [1 for (_, (m, f)) in oracle_fail if vlib.match_finding("C17", f) is None]:
+        idx, d = mm0[0]
         c = cases[idx]
-        ctx.violation("correspondence Scale/*.v <-> scale.c no longer holds (%d cases differ from the as-is model); the "
-                      "property predicate held on every implementation output explored" % len(mm0), {"kind": "correspondence"},
+        ctx.violation("correspondence Scale/*.v <-> scale.c no longer holds (%d cases differ from the model of the tree, %d "
+                      "from the model with the zero-dimension repair dropped); the property predicate held on every "
+                      "implementation output explored" % (len(mm0), len(mismatches)), {"kind": "correspondence"},
                       "correspondence: Scale/ScaleF.v (scaleF, correctionF, upd_geomF), Scale/ScaleDefs.v vs "
                       "src/libvncserver/scale.c, rfbserver.c (SetScale handlers)\nscript:\n" + "\n".join(c) +
                       "\n\nfirst differing observation (#%d):\nimplementation: %s\nmodel:          %s\n" % d, no_input=True)
@@ -692,7 +693,7 @@ def replay(ctx, path):
     lines = [l for l in body.split("\n") if l.strip()]
     cexe, mexe, _ = build(ctx)
     r, co, ce, cr = run_impl(cexe, [lines])
-    mo, me, _ = run_model(ctx, mexe, [lines])
+    mo, me, _ = run_model(ctx, mexe, [lines], zerofix=True)
     print("implementation:\n" + co + ce[-800:] + ("crash: %s\n" % (cr,) if cr else "") + "model:\n" + mo)
     cs = vlib.split_cases(co)
     es = oracle_case(lines, cs[0][1] if cs else [], cr.get(lines[0]) or cr.get("*"))
